@@ -93,8 +93,8 @@ type c06case struct {
 // bounds) for each sequence-valued field of Root.
 var c06directed = func() []data.Path {
 	var ps []data.Path
-	lens := map[string]int{"Strs": 3, "Ints": 3, "Ifaces": 5, "Structs": 2, "Ptrs": 2, "Arr": 3, "PSl": 2, "Cap": 2, "Str": 3, "NilSl": 0}
-	for _, f := range []string{"Strs", "Ints", "Ifaces", "Structs", "Ptrs", "Arr", "PSl", "Cap", "Str", "NilSl"} {
+	lens := map[string]int{"Strs": 3, "Ints": 3, "Ifaces": 5, "Structs": 2, "Ptrs": 2, "Arr": 3, "PSl": 2, "Cap": 2, "Str": 3, "NilSl": 0, "PPSl": 2, "PPStr": 3}
+	for _, f := range []string{"Strs", "Ints", "Ifaces", "Structs", "Ptrs", "Arr", "PSl", "Cap", "Str", "NilSl", "PPSl", "PPStr"} {
 		n := lens[f]
 		for i := -1; i <= n+1; i++ {
 			ps = append(ps, data.Path{Steps: []data.Step{{Kind: data.SField, Name: f}, {Kind: data.SIndex, Index: i}}})
